@@ -53,12 +53,12 @@ Proof.
     eexists. eexists. split; [rewrite !app_assoc; reflexivity|discriminate].
   - rewrite kstmt_SFrom in H. rewrite sc_SFrom. cbv zeta.
     destruct (ec path c (from_lr1 lr name) k a) as [ca fa]. destruct (ec path c (from_lr1 lr name) (k + length fa) b) as [cb_ fb].
-    destruct (bc path c (S (from_lr1 lr name)) (Some 1) (k + length fa + length fb) body) as [cbody fbd].
-    destruct (stepc path c (S (from_lr1 lr name)) (k + length fa + length fb + length fbd) step) as [cs fs]. cbn [fst].
+    destruct (bc path c (S (S (from_lr1 lr name))) (Some 1) (k + length fa + length fb) body) as [cbody fbd].
+    destruct (stepc path c (S (S (from_lr1 lr name))) (k + length fa + length fb + length fbd) step) as [cs fs]. cbn [fst].
     destruct collide.
     + unfold I. rewrite resolve_snoc_CI. rewrite app_nil_r.
       eexists. eexists. split; [rewrite !app_assoc; reflexivity|discriminate].
-    + eexists. exists (mkI OP_DELETE_NAME_SCOPED [from_idn lr name; lregn (S (from_lr1 lr name))]). split; [rewrite !app_assoc; reflexivity|discriminate].
+    + eexists. exists (mkI OP_DELETE_NAME_SCOPED [from_idn lr name; lregn (S (from_lr1 lr name)); lregn (S (S (from_lr1 lr name)))]). split; [rewrite !app_assoc; reflexivity|discriminate].
   - destruct e as [e|].
     + rewrite sc_Return. destruct (ec path c lr k e) as [ce fe]. exists (map CI ce), (mkI OP_RET []). split; [reflexivity|reflexivity].
     + exists [], (mkI OP_RET []). split; reflexivity.
@@ -280,8 +280,7 @@ Proof.
   assert (Eenv : env1 = {| locals := [sc]; captured := cenv; cur := Some fv |}) by (rewrite (fenv_eta env1), El1, Ec1, Eu1; reflexivity).
   subst env1.
   (* the body *)
-  pose proof (bspec_all path prog loc fcd cbf G (frames g1) (Some (pk, r)) (S d) Hsm fuel IH allP (fun _ _ => Logic.I) (fun _ => Logic.I)
-                (ghost_all path prog loc fcd cbf (frames g1) (Some (pk, r)) (S d) Hsm fuel IH) body b1 (rev (combine ps pk)) lr false None 0 0 k fuel (2 * length ps)
+  pose proof (bspec_all path prog loc fcd cbf G (frames g1) (Some (pk, r)) (S d) Hsm fuel IH allP (fun _ _ => Logic.I) (fun _ => Logic.I) body b1 (rev (combine ps pk)) lr false None 0 0 k fuel (2 * length ps)
                 a1 gq {| locals := [sc]; captured := cenv; cur := Some fv |} s1 B' rets (le_n _) Hkb Hb1 Hinb) as H.
   fold its in H.
   assert (Hlits : length its = length cb0) by (unfold cb0; rewrite <- (CI_strip its Hits) at 1; apply map_length).
@@ -441,8 +440,7 @@ Proof.
   pose proof (Cl_entry path P b0 s0 g0 [] [] name None None None Hh0 eq_refl ltac:(constructor) ltac:(intros x kx []) ltac:(constructor) Logic.I) as HC0.
   fold env0 gP in HC0.
   assert (Hlits : length its = length cbm) by (unfold cbm; rewrite <- (CI_strip its Hits) at 1; apply map_length).
-  pose proof (bspec_all path P name mc None [] [] None 0 Hsm fuel (fun f _ => call_sim_all path P f) allP (fun _ _ => Logic.I) (fun _ => Logic.I)
-                (ghost_all path P name mc None [] None 0 Hsm fuel (fun f _ => call_sim_all path P f)) p b0 [] 0 false None 0 0 0 fuel 0 a0 gP env0 s0 B' rets
+  pose proof (bspec_all path P name mc None [] [] None 0 Hsm fuel (fun f _ => call_sim_all path P f) allP (fun _ _ => Logic.I) (fun _ => Logic.I) p b0 [] 0 false None 0 0 0 fuel 0 a0 gP env0 s0 B' rets
                 (le_n _) Hk ltac:(split; [intros x _; cbn; split; [congruence|intros []]|intros x []]) Hinst) as H.
   fold its in H. rewrite Hlits in H.
   specialize (H ltac:(apply items_at_strip; [exact Hits|]; exact (code_at_embed [] cbm [ret_mod]))
